@@ -53,7 +53,7 @@ Example C20_valid_ctor_example :
   valid_ctor 2 (Build_ctor_d (Build_dt_d true [DPos; DZero]) (HList [e "x"; e "y"]%string) (HList [e "z"]%string) (BBasis [4; 2; 2])).
 Proof.
   cbv zeta. unfold valid_ctor. cbn [k_dt dt_haslen dt_vals k_Hc k_Hn k_basis length].
-  split; [reflexivity|]. split; [constructor; [left; reflexivity|]; constructor; [right; reflexivity|]; constructor|].
+  split; [reflexivity|]. split; [split; [constructor; [left; reflexivity|]; constructor; [right; reflexivity|]; constructor | discriminate]|].
   split; [eexists; split; [reflexivity|]; split; [discriminate|]; split; [repeat constructor | intros _; reflexivity]|].
   split; [eexists; split; [reflexivity|]; split; [discriminate|]; split; [repeat constructor | intros _; reflexivity]|].
   right. exists 4. reflexivity.
@@ -63,8 +63,11 @@ Qed.
 Theorem C20_ctor_durations_not_a_sequence : forall d k, valid_ctor d k ->
   validate_ctor (Build_ctor_d (Build_dt_d false (dt_vals (k_dt k))) (k_Hc k) (k_Hn k) (k_basis k)) = Raise TypeError.
 Proof. exact ctor_complete_dt_no_len. Qed.
-(* a negative or complex duration at any position *)
-Theorem C20_ctor_duration_value : forall d k i v, valid_ctor d k -> i < length (dt_vals (k_dt k)) -> v = DNeg \/ v = DComplex ->
+Theorem C20_ctor_durations_empty : forall d k, valid_ctor d k ->
+  validate_ctor (Build_ctor_d (Build_dt_d true []) (k_Hc k) (k_Hn k) (k_basis k)) = Raise ValueError.
+Proof. exact ctor_complete_dt_empty. Qed.
+(* a negative, complex or non-finite (nan, inf) duration at any position *)
+Theorem C20_ctor_duration_value : forall d k i v, valid_ctor d k -> i < length (dt_vals (k_dt k)) -> v = DNeg \/ v = DComplex \/ v = DNonFinite ->
   validate_ctor (Build_ctor_d (Build_dt_d true (upd (dt_vals (k_dt k)) i v)) (k_Hc k) (k_Hn k) (k_basis k)) = Raise ValueError.
 Proof. exact ctor_complete_dt_value. Qed.
 (* an entry that is not a list, an operator of a wrong type, a non-square or three-dimensional operator,
@@ -137,6 +140,16 @@ Theorem C20_extend_not_a_pulse : forall x i e, x_entries x <> [] -> i < length (
   validate_extend (Build_extend_d (upd (x_entries x) i e) (x_ndt x) (x_N x) (x_dpq x) (x_add x) (x_cache_diag x) (x_cache_ff x) (x_omega_given x))
   = Raise TypeError.
 Proof. exact extend_complete_not_pulse. Qed.
+Theorem C20_extend_noninteger_qubit : forall x i e, x_entries x <> [] -> Forall (fun e => p_ispulse (x_pulse e) = true) (x_entries x) ->
+  i < length (x_entries x) -> p_ispulse (x_pulse e) = true -> x_qubits e = QNonInt ->
+  validate_extend (Build_extend_d (upd (x_entries x) i e) (x_ndt x) (x_N x) (x_dpq x) (x_add x) (x_cache_diag x) (x_cache_ff x) (x_omega_given x))
+  = Raise TypeError.
+Proof. exact extend_complete_nonint_qubit. Qed.
+Theorem C20_concatenate_periodic : forall p n,
+  (p_ispulse p = true -> (1 <= n)%Z -> validate_concat_periodic p n = ok) /\
+  (p_ispulse p = false -> validate_concat_periodic p n = Raise TypeError) /\
+  (p_ispulse p = true -> (n < 1)%Z -> validate_concat_periodic p n = Raise ValueError).
+Proof. exact validate_concat_periodic_spec. Qed.
 Theorem C20_extend_time_grid : forall x i e, valid_extend x -> 2 <= length (x_entries x) -> i < length (x_entries x) ->
   let e0' := nth i (x_entries x) e in
   p_ispulse (x_pulse e) = true -> x_qubits e = x_qubits e0' -> p_d (x_pulse e) = p_d (x_pulse e0') ->
@@ -230,6 +243,52 @@ Theorem C20_error_transfer_matrix : forall t,
   (t_cum t = KNone -> t_have_pulse t && q_have_spectrum (t_q t) && q_have_omega (t_q t) = false -> validate_etm t = Raise ValueError) /\
   (forall s a, t_cum t = KArray (s ++ [a; a]) -> validate_etm t = ok).
 Proof. exact validate_etm_complete. Qed.
+
+(* ---------------------------------------------------------------- remaining entry points, position-quantified *)
+(* remap: an order with an entry out of range or a repeated entry, wherever they sit *)
+Theorem C20_remap_order : forall r, p_d (r_pulse r) = r_dpq r ^ r_N r -> r_order_ints r = true ->
+  (exists z, In z (r_order r) /\ ~ (0 <= z < Z.of_nat (r_N r))%Z) \/ ~ NoDup (r_order r) -> validate_remap r = Raise ValueError.
+Proof. exact validate_remap_complete_order. Qed.
+(* extend: every entry corruption at every position of the additional noise Hamiltonian; its dimension; an
+   identifier already in use; the cache flags *)
+Theorem C20_extend_additional_entry : forall x cd es i c, valid_extend x -> cd <> Some false ->
+  valid_H true (x_dpq x ^ ext_N x) (x_ndt x) es -> i < length es ->
+  validate_extend (with_add x (HList (upd es i (apply_e (x_dpq x ^ ext_N x) (x_ndt x) c (nth i es e0)))) cd) = Raise (ecorr_class c).
+Proof. exact extend_complete_additional_entry. Qed.
+Theorem C20_extend_additional_dimension : forall x cd es d', valid_extend x -> cd <> Some false ->
+  valid_H true d' (x_ndt x) es -> d' <> x_dpq x ^ ext_N x -> validate_extend (with_add x (HList es) cd) = Raise ValueError.
+Proof. exact extend_complete_additional_dimension. Qed.
+Theorem C20_extend_additional_identifier : forall x cd es cids nids s, valid_extend x -> cd <> Some false ->
+  collect (map (ext_ids false) (x_entries x)) = Ok cids -> collect (map (ext_ids true) (x_entries x)) = Ok nids ->
+  valid_H true (x_dpq x ^ ext_N x) (x_ndt x) es -> In s (entry_ids true es) -> In s nids ->
+  validate_extend (with_add x (HList es) cd) = Raise ValueError.
+Proof. exact extend_complete_additional_identifier. Qed.
+Theorem C20_extend_flags : forall x H, valid_extend x ->
+  validate_extend (with_add x H (Some false)) = Raise ValueError /\
+  (x_omega_given x = false -> ~ (all_equal_nonempty (optnat_tags (map (fun e => p_omega (x_pulse e)) (x_entries x))) = true /\
+                                 forallb (fun e => negb (is_none (p_omega (x_pulse e)))) (x_entries x) = true) ->
+   validate_extend (Build_extend_d (x_entries x) (x_ndt x) (x_N x) (x_dpq x) (x_add x) (x_cache_diag x) (Some true) false) = Raise ValueError).
+Proof. exact extend_complete_flags. Qed.
+(* concatenate: filter functions requested without frequencies *)
+Theorem C20_concat_frequencies : forall l which cff cpc, valid_pulses l -> 2 <= length l ->
+  In which ["fidelity"; "generalized"]%string -> equal_omega l = false -> (cff = Some true \/ cpc = true) ->
+  validate_concat (Build_concat_d (PsList l) which cff cpc false) = Raise ValueError /\
+  validate_concat (Build_concat_d (PsList l) which cff cpc true) = ok.
+Proof. exact validate_concat_frequencies. Qed.
+(* infidelity: smallness parameter for cross-spectra, convergence test *)
+Theorem C20_infidelity_smallness : forall a, valid_analysis a -> (2 < length (s_shape (a_spectrum a))) ->
+  validate_infidelity (Build_analysis_d (a_pulse a) (a_which a) (a_ids a) (a_spectrum a) (a_omega_kind a) (a_omega_len a) (a_omega_tag a)
+                         true (a_test_conv a) (a_omega_isdict a) (a_spacing a)) = Raise NotImplementedError.
+Proof. exact infidelity_smallness. Qed.
+Theorem C20_infidelity_convergence_test : forall p w ids s ok_kind olen otag sm isdict spacing,
+  In w ["total"; "correlations"]%string -> (forall l, ids = Some l -> incl l (map n_id (p_n p))) ->
+  let a := Build_analysis_d p w ids s ok_kind olen otag sm true isdict spacing in
+  (s_kind s <> ACallable -> validate_infidelity a = Raise TypeError) /\
+  (s_kind s = ACallable -> isdict = false -> validate_infidelity a = Raise TypeError) /\
+  (s_kind s = ACallable -> isdict = true -> ~ In spacing ["linear"; "log"]%string -> validate_infidelity a = Raise ValueError) /\
+  (s_kind s = ACallable -> isdict = true -> In spacing ["linear"; "log"]%string -> validate_infidelity a = ok).
+Proof. exact infidelity_convergence_test. Qed.
+Print Assumptions C20_extend_additional_entry.
 
 (* ---------------------------------------------------------------- complete: Basis, dims arguments *)
 Theorem C20_basis_complete : forall d os labels, os <> [] -> Forall (good_oper d) os ->
